@@ -61,6 +61,8 @@ def do_check(prop, tier, seed):
     n_new = 0
     known_hits = {}
     seen_keys = {}
+    unconfirmed = []
+    tries = {}
     for v in result.violations:
         f = report.open_finding(prop, v.key, known)
         if f is not None:
@@ -72,17 +74,23 @@ def do_check(prop, tier, seed):
         n_new += 1
         k = json.dumps(v.key)
         seen_keys[k] = seen_keys.get(k, 0) + 1
-        if seen_keys[k] > 3 or printed >= MAX_LINES:
+        if seen_keys[k] > 3 or printed >= MAX_LINES or tries.get(k, 0) >= 8:
             continue
-        # confirm from the replay file in a re-created state before reporting
+        tries[k] = tries.get(k, 0) + 1
+        # confirm from the replay file in a re-created state before reporting; a case that
+        # does not fail again (it depended on what the worker had done before) is never
+        # printed as a VIOLATION
         path = report.write_replay(prop, tier, v)
         again = mod.replay(v)
         if not again:
-            raise boot.HarnessError(
-                "violation did not reproduce from its replay file {} ({})".format(
-                    path, v.what
-                )
-            )
+            unconfirmed.append((path, v.what))
+            seen_keys[k] -= 1
+            n_new -= 1
+            try:
+                os.remove(path)
+            except OSError:
+                pass
+            continue
         print("  [{}] {}  key={}".format(v.sub, v.what, k))
         print("VIOLATION property={} replay={}".format(prop, path))
         printed += 1
@@ -117,8 +125,15 @@ def do_check(prop, tier, seed):
         )
     )
     if n_new:
-        print("{} violating case(s) in {} root-cause group(s)".format(n_new, len(seen_keys)))
-    return 1 if n_new else 0
+        print("{} violating case(s) in {} root-cause group(s)".format(
+            n_new, len([k for k, c in seen_keys.items() if c > 0])))
+    for path, what in unconfirmed[:5]:
+        print("UNCONFIRMED (did not fail again on replay, not reported): {}".format(what[:300]))
+    if unconfirmed and not printed:
+        raise boot.HarnessError(
+            "{} case(s) failed during the exploration but none failed again on replay - "
+            "the behaviour depends on state the replay case does not carry".format(len(unconfirmed)))
+    return 1 if printed else 0
 
 
 def main():
